@@ -35,3 +35,15 @@ add("C19", "exploration", "property-based testing of long call histories: drawn 
 add("C11", "exploration", "property-based testing: grammar-generated P1 data blocks, round-trip parse oracle and exact-rational decode oracle",
     "Hypothesis generates data blocks and identification lines from the IEC 62056-21 grammar; parse must return exactly the transmitted data sets; decoding is compared with Fraction arithmetic (k-units within [exact-1, exact], other units correctly rounded, clock and text verbatim); decode_p1_readout, decode_p1_readout_content and AutoDecoder must agree.",
     "Field names from the harness's own table; identification text without trailing blank/leading backslash; bounded search.", "DESIGN.md §4 C11")
+add("C10", "exploration", "property-based testing: encode (hand-written COSEM date-time encoder) -> decode round trip in every syntactic position",
+    "Hypothesis date-times (all fields, hundredths, deviation incl. boundaries and unspecified, all status octets) are encoded by the harness and placed in 11 message positions covering the six places a date-time is accepted; the decoded value is compared field-wise and by UTC offset with the harness's expectation.",
+    "Surrounding message content fixed and well-formed; year..second specified.", "DESIGN.md §4 C10")
+add("C07", "exploration", "property-based testing: hand-written COSEM encoder -> Aidon decoder round trip with exact-rational scaling oracle",
+    "Documented Aidon layouts and arbitrary subsets/orders, registers over the full range of each transmitted type, scalers -6..6; expected dictionary computed with Fraction arithmetic and the harness's own OBIS->name table; frame and body decoding must agree.",
+    "Harness encoder and name table are the trusted base; scalers beyond -6..6 not explored.", "DESIGN.md §4 C07")
+add("C08", "exploration", "property-based testing: hand-written encoder -> Kaifa decoder round trip, positional and OBIS-tagged layouts",
+    "Five positional layouts and the Swedish OBIS-tagged layout with arbitrary u32 registers (pairwise distinct so swapped positions cannot cancel), strings and date-times; expected values by position / OBIS with exact quotient equality; clock precedence (list element over APDU) checked.",
+    "Printable-ASCII identification strings; positional layouts always carry an APDU date-time.", "DESIGN.md §4 C08")
+add("C09", "exploration", "property-based testing: hand-written encoder -> Kamstrup decoder round trip incl. CT detection and null padding",
+    "10-second and hourly lists (1/3 phase), full-range registers, null-data padding after any element, CT / non-CT / near-miss meter type numbers; currents within a stated 4*2^-53 relative tolerance of reg/100 (reg/1000 for CT), energies exactly x10, frame clock = APDU date-time.",
+    "Only documented OBIS codes are sent; tolerance stated because the documented computation is a single float multiplication.", "DESIGN.md §4 C09")
